@@ -443,7 +443,13 @@ func (w *world) registryConsistency(when string) {
 	pairs := map[string]aggregatetypes.TokenPair{}
 	byERC := map[string]string{}
 	byDenom := map[string]string{}
-	for k, v := range raw {
+	var rawKeys []string
+	for k := range raw {
+		rawKeys = append(rawKeys, k)
+	}
+	sort.Strings(rawKeys)
+	for _, k := range rawKeys {
+		v := raw[k]
 		switch k[0] {
 		case 0x01:
 			var p aggregatetypes.TokenPair
@@ -503,7 +509,13 @@ func (w *world) registryConsistency(when string) {
 			}
 		}
 	}
-	for a, id := range byERC {
+	var ercKeys []string
+	for a := range byERC {
+		ercKeys = append(ercKeys, a)
+	}
+	sort.Strings(ercKeys)
+	for _, a := range ercKeys {
+		id := byERC[a]
 		p, ok := pairs[id]
 		if !ok {
 			w.rec.Violate("C12", "dangling_contract_entry", when, "contract index entry %s points to a pair that does not exist", common.BytesToAddress([]byte(a)).Hex())
